@@ -400,5 +400,6 @@ pub fn run(ctx: &Ctx, rep: &mut Report) {
         }
         rep.completed.push("CLI build+nk".into());
     }
+    rep.sample(json!({"records": ["ACGTTGCAT"], "k": 9, "rc": true, "wide": false, "note": "record of length exactly k: one split k-mer expected"}));
     rep.capped = capped;
 }
